@@ -102,6 +102,8 @@ func checkC13(cx *Ctx, r *Report) {
 	r.NotDec = []string{"lexical acceptance of time.Parse", "HTML transport of NUL in RelayState (html/template)"}
 	r.Assume = []string{"chain semantics (C20, re-checked)"}
 	cx.checkDecodesWholeMessage(r, "R-STRICT", "xml.DecodeLogoutRequest")
+	// whenever the request could be decoded its ID is echoed: the decoder does not refuse a decodable document
+	cx.checkDecoderNotStricter(r, "xml.DecodeLogoutRequest")
 	cx.errDisciplineOfHandler(r, kLogout)
 	if !cx.requireC20(r) {
 		return
